@@ -286,6 +286,7 @@ class Host(utils.EventEmitter):
         self.suggested_max_tx_octets = 251  # Max allowed
         self.suggested_max_tx_time = 2120  # Max allowed
         self.command_semaphore = asyncio.Semaphore(1)
+        self.transport_lost = False  # True once the source reported the transport lost
         self.long_term_key_provider = None
         self.link_key_provider = None
         self.pairing_io_capability_provider = None  # Classic only
@@ -655,6 +656,7 @@ class Host(utils.EventEmitter):
 
     def set_packet_source(self, source: TransportSource) -> None:
         source.set_packet_sink(self)
+        self.transport_lost = False
         self.hci_metadata = getattr(source, 'metadata', self.hci_metadata)
 
     def send_hci_packet(self, packet: hci.HCI_Packet) -> None:
@@ -671,6 +673,12 @@ class Host(utils.EventEmitter):
     ) -> hci.HCI_Command_Complete_Event | hci.HCI_Command_Status_Event:
         # Wait until we can send (only one pending command at a time)
         await self.command_semaphore.acquire()
+
+        # No response can come from a transport that is gone: fail now rather than
+        # wait forever while holding the command gate
+        if self.transport_lost:
+            self.command_semaphore.release()
+            raise TransportLostError('transport lost')
 
         # Create a future value to hold the eventual response
         assert self.pending_command is None
@@ -991,6 +999,7 @@ class Host(utils.EventEmitter):
 
     def on_transport_lost(self):
         # Called by the source when the transport has been lost.
+        self.transport_lost = True
         if self.pending_response and not self.pending_response.done():
             self.pending_response.set_exception(TransportLostError('transport lost'))
 
